@@ -658,7 +658,10 @@ impl<S: EntryIoStream, E: Entry> Receiver<S, E> {
         let span = tracing::span!(tracing::Level::TRACE, "metrics background queue", sink=?self.inner.name);
         let _enter = span.enter();
         let mut waker_tracker = WakerTracker::new(flush_queue_receiver);
-        let inner = self.inner.clone();
+        // The capacity is fixed, so read it once instead of holding a second reference to the
+        // shared queue: an extra `Arc` clone here would make the "no appenders left" check
+        // below (`Arc::get_mut`) fail forever.
+        let queue_capacity = self.inner.queue.capacity();
 
         loop {
             let next_flush = Instant::now() + self.flush_interval;
@@ -668,7 +671,7 @@ impl<S: EntryIoStream, E: Entry> Receiver<S, E> {
                 let (status, entry_count) = self.drain_until_deadline(next_flush);
 
                 waker_tracker.handle_waiting_wakers(
-                    || inner.queue.capacity(),
+                    || queue_capacity,
                     || self.flush_stream(),
                     status,
                     entry_count,
